@@ -103,6 +103,9 @@ Definition witness (p : path) : ty * Z :=
   | PElem1 | PElem1Compound | PIncDecElem1 | PLit1 => (utiny, 254)
   | PGlobalArr => (tiny, 128)
   | PAssignFromElemN | PReturnElemN => (tint, 4294967296)
+  | PAssignHint _ | PDeclMulti _ => (tiny, -1)
+  | PDeclTypedefTernary | PArrCopy | PArrLitAssign1 | PArrLitAssignN => (tiny, 128)
+  | PStaticAssign | PElem1Global => (utiny, -1)
   | _ => (tiny, 0)
   end.
 
@@ -156,4 +159,75 @@ Lemma bare_multidim_value_is_checked_refuted_l :
   mech_store PAssignFromElemN tint 4294967296 = Val 4294967296 /\ mech_store PReturnElemN tint 4294967296 = Val 4294967296 /\
   coerce tint 4294967296 = Fail ERange /\
   mech_store PAssignFromElemN tiny (-129) = Fail ERange /\ mech_store PAssignFromElemN tiny 128 = Fail ERange.
+Proof. vm_compute. auto 10. Qed.
+
+(* ------------------------------------------------------------------ the typed store entry point *)
+(* VariableManager::assign_variable checks the range of the TARGET's declared type whatever type hint the caller passes
+   (execute_ternary_assignment passes the inferred type of the selected branch, the multiple-declaration executor the declared
+   type, plain assignments TYPE_UNKNOWN): with any hint whose resolved type is not bool the store is the demanded conversion *)
+Lemma assign_variable_refines_l h t v :
+  h <> HPointer -> resolved_type h t <> TBool -> mech_assign_variable h t v = coerce t v.
+Proof.
+  intros Hp Hb. unfold mech_assign_variable.
+  assert (E : match resolved_type h t with TBool => bool_norm v | _ => v end = v) by (destruct (resolved_type h t); congruence).
+  rewrite E. fold (clamp_check t v). rewrite <- clamp_check_is_coerce_l. destruct h; try reflexivity. congruence.
+Qed.
+
+Lemma ternary_assignment_is_checked_l b t v : b <> TBool -> mech_store (PAssignHint (HTy b)) t v = coerce t v.
+Proof. intros Hb. cbn [mech_store]. apply assign_variable_refines_l; [discriminate|exact Hb]. Qed.
+
+Lemma hinted_paths_refine_l h p : In p (hinted_paths h) -> h <> HPointer ->
+  forall t v, resolved_type h t <> TBool -> mech_store p t v = coerce t v.
+Proof.
+  intros H Hp t v Hb. cbn in H. repeat (destruct H as [<-|H]; [cbn [mech_store]; apply assign_variable_refines_l; assumption|]). destruct H.
+Qed.
+
+Lemma unhinted_paths_refine_l p : In p unhinted_paths -> forall t v, base t <> TBool -> mech_store p t v = coerce t v.
+Proof.
+  intros H t v Hb. cbn in H. repeat (destruct H as [<-|H]; [cbn [mech_store]; apply assign_variable_refines_l; [discriminate|exact Hb]|]). destruct H.
+Qed.
+
+(* a bool-inferred branch (finding C04-ternary-assign-bool-branch): every value other than 0 and 1 that the target's type admits
+   is NOT stored exactly - it is normalised to 1 first *)
+Lemma bool_norm_not_id v : v <> 0 -> v <> 1 -> bool_norm v = 1.
+Proof. intros H0 _. unfold bool_norm. destruct (v =? 0) eqn:E; [apply Z.eqb_eq in E; contradiction|reflexivity]. Qed.
+
+Lemma assign_variable_bool_hint_refuted_l t v :
+  v <> 0 -> v <> 1 -> in_range t v = true -> (uns t = true -> 0 <= v) ->
+  coerce t v = Val v /\ mech_assign_variable (HTy TBool) t v <> Val v.
+Proof.
+  intros H0 H1 Hr Hu. split.
+  - unfold coerce. destruct (uns t) eqn:U; cbn [andb].
+    + destruct (v <? 0) eqn:E; [apply Z.ltb_lt in E; specialize (Hu eq_refl); lia|]. rewrite Hr. reflexivity.
+    + rewrite Hr. reflexivity.
+  - unfold mech_assign_variable. cbn [resolved_type]. rewrite (bool_norm_not_id v H0 H1).
+    rewrite mech_clamp_is_spec_l. replace (1 <? 0) with false by reflexivity. rewrite andb_false_r.
+    rewrite mech_check_is_spec_l. destruct (in_range t 1); intros E; inversion E; congruence.
+Qed.
+
+Lemma ternary_assign_bool_branch_refuted_l :
+  mech_store (PAssignHint (HTy TBool)) (mk TLong false) (-1) = Val 1 /\ coerce (mk TLong false) (-1) = Val (-1) /\
+  mech_store (PAssignHint (HTy TBool)) utiny (-2) = Val 1 /\ coerce utiny (-2) = Val 0 /\
+  mech_store (PAssignHint (HTy TBool)) tiny 2 = Val 1 /\ mech_store (PDeclMulti (HTy TBool)) tiny (-1) = Val 1.
+Proof. vm_compute. auto 10. Qed.
+
+(* the remaining new shapes *)
+Lemma typedef_ternary_init_is_checked_refuted_l :
+  mech_store PDeclTypedefTernary tiny 128 = Val 128 /\ coerce tiny 128 = Fail ERange /\
+  mech_store PDeclTypedefTernary tiny (-129) = Val (-129) /\ (forall t v, mech_store PDeclTypedef t v = coerce t v).
+Proof. repeat split; try (vm_compute; reflexivity). intros t v. apply clamp_check_is_coerce_l. Qed.
+
+Lemma static_assignment_keeps_unsigned_refuted_l :
+  mech_store PStaticAssign utiny 200 = Fail ERange /\ coerce utiny 200 = Val 200 /\
+  mech_store PStaticAssign utiny (-1) = Val (-1) /\ coerce utiny (-1) = Val 0 /\
+  (forall t v, uns t = false -> mech_store PStaticAssign t v = coerce t v).
+Proof.
+  repeat split; try (vm_compute; reflexivity). intros [b u] v Hu. cbn in Hu. subst u.
+  cbn [mech_store signed_of base uns]. rewrite mech_check_is_spec_l. unfold coerce. cbn [uns andb]. reflexivity.
+Qed.
+
+Lemma whole_array_store_is_checked_refuted_l :
+  mech_store PArrLitAssign1 tiny 300 = Val 44 /\ mech_store PArrLitAssignN tiny 300 = Val 300 /\ mech_store PArrCopy tiny 300 = Val 300 /\
+  coerce tiny 300 = Fail ERange /\ mech_store PArrLitAssign1 utiny (-5) = Val 0 /\ mech_store PElem1Global utiny (-1) = Val (-1) /\
+  mech_store PElem1Global utiny 200 = Fail ERange.
 Proof. vm_compute. auto 10. Qed.
